@@ -645,6 +645,8 @@ def _split_msh(content):
 
         if len(seps) > len(set(seps)):
             raise InvalidEncodingChars("Found duplicate encoding chars")
+        if any(c.isspace() for c in seps):  # a blank cannot delimit anything: values are stripped
+            raise InvalidEncodingChars("Found a whitespace encoding char")
 
         try:
             comp_sep, rep_sep, escape, sub_sep = seps
